@@ -487,8 +487,8 @@ GENERIC = {
         parts=[("langx", "equiv", 320, 4800, 20, LANG_Q, LANG_T), ("lang", "equiv", 120, 1600, 20, LANG_Q, LANG_T)],
     ),
     "C16": dict(
-        rule="regex trees over {a, b, [a-b], [b-c], _} with * + ? concatenation | and # (bounded-exhaustive: all 2085 trees with <= 2 operators, plus random trees with 3-6 operators) and multi-rule-set definitions with top-level and rule-set-local lets (the same local name bound differently in different rule sets); every definition is printed four ways (fewest parentheses the documented grammar allows, fully parenthesised, redundant parentheses, subtrees named with let) and each printing compiled through the real macro; all printings must agree with the reference matcher on the TREE (which never passes through a parser) and with each other. Non-trivial = distinct (definition, printing) pairs.",
-        nt="variants",
+        rule="regex trees over {a, b, [a-b], [b-c], _} with * + ? concatenation | and # (bounded-exhaustive: all 2085 trees with <= 2 operators, plus random trees with 3-6 operators) and multi-rule-set definitions with top-level and rule-set-local lets (the same local name bound differently in different rule sets); every definition is printed four ways (fewest parentheses the documented grammar allows, fully parenthesised, redundant parentheses, subtrees named with let) and each printing compiled through the real macro; all printings must agree with the reference matcher on the TREE (which never passes through a parser) and with each other. Non-trivial = (definition, wrong grammar) pairs in which the minimal printing, read by a WRONG grammar (postfix tighter than #, | tighter than concatenation, # right-associative, postfix applying to the whole preceding concatenation), is rejected or denotes a language that some input of the run separates from the tree's language - i.e. cases in which the run would notice that mis-reading.",
+        nt="nt_C16",
         parts=[("precx", "print", 240, 3200, 10, LANG_Q, LANG_T), ("scope", "print", 60, 600, 10, SMALL, BIG), ("mixed", "print", 40, 600, 10, SMALL, BIG)],
     ),
     # prop: (rule text, nontrivial counter, [ (family, mode, quick_n, thorough_n, per_bin, quick_env, thorough_env) ], min_nontrivial)
@@ -566,7 +566,8 @@ def run_generic(root, prop, tier, seed, res, cfg=None, extra_props=()):
         base = (seed % 1000) * 100000
         if family in EXHAUSTIVE_FAMILIES:
             total = EXHAUSTIVE_FAMILIES[family]
-            n_exh = total if tier == "thorough" else min(total, (n * 3) // 4)
+            frac = {"precx": (1, 3)}.get(family, (3, 4))
+            n_exh = total if tier == "thorough" else min(total, (n * frac[0]) // frac[1])
             idx = sample_indices(total, n_exh, seed, family) + [total + base + i for i in range(max(0, n - n_exh))]
         else:
             idx = list(range(base, base + n))
